@@ -32,6 +32,7 @@ MUTANTS = [
     ('pyworkers/process.py', "                self._result, self._user_state = self._result\n", "                self._result, _unused = self._result\n", 'state received from the child is discarded'),
     ('pyworkers/process.py', "            self._comms.child_end.put(((False, e), self._user_state))", "            self._comms.child_end.put(((False, e), None))", 'state not reported when the target raised'),
     ('pyworkers/worker.py', "'init_state': self._user_state }", "'init_state': None }", 'restart forgets the synchronised state'),
+    ('pyworkers/process.py', "            self._result = self._early_msg\n", "            self._result = None\n", 'the final message wait() received ahead of the exit is dropped'),
 ]
 
 
@@ -48,7 +49,7 @@ def build(ex):
         modifies=[])
 
     # ---------------------------------------------------------------- L3/L4 getter on the parent
-    def dead_unfetched(ex_, env):
+    def dead_unfetched(ex_, env, prefetched=False):
         """the child has been observed dead (wait()/terminate() returned True or is_alive() False), it reported, and the
         parent has not touched result/error/has_error yet"""
         self_v = workers.process_parent(ex_, env)
@@ -63,9 +64,16 @@ def build(ex):
         ac.set(ex_, cp, 'peer_closed', z3.BoolVal(True))
         ac.set(ex_, ex_.abs_classes['Proc'] and env['child'] and cp, 'open', z3.BoolVal(True))
         ex_.abs_classes['Proc'].set(ex_, env['child'], 'alive', z3.BoolVal(False))
-        ex_.assume(z3.And(ipos0 >= 0, ipos0 < z3.Length(inq)))          # it reported: at least one final message
         env['ipos0'] = VInt(ipos0)
         env['inq'] = VSeq(inq)
+        env['early'] = NONE
+        if prefetched:
+            # wait() already received the child's final message while waiting for its exit (ProcessWorker.wait)
+            ex_.assume(z3.And(ipos0 >= 1, ipos0 <= z3.Length(inq), workers.final_msg_inv(ex_, inq[ipos0 - 1], None)))
+            a['_early_msg'] = VSym(inq[ipos0 - 1])
+            env['early'] = a['_early_msg']
+        else:
+            ex_.assume(z3.And(ipos0 >= 0, ipos0 < z3.Length(inq)))          # it reported: at least one final message
 
     def state_is_childs(c):
         ex_ = c.ex
@@ -76,7 +84,7 @@ def build(ex):
 
     drain = Loop(
         invariant=['comms_parent.ipos >= ipos0 and comms_parent.ipos <= len(inq)',
-                   'implies(comms_parent.ipos == ipos0, is_none(self._result))',
+                   'implies(comms_parent.ipos == ipos0, val(self._result) == val(early))',
                    'implies(comms_parent.ipos > ipos0, val(self._result) == inq[comms_parent.ipos - 1])',
                    'implies(comms_parent.ipos > ipos0, is_final(inq[comms_parent.ipos - 1]))',
                    'self._dead'],
@@ -104,6 +112,7 @@ def build(ex):
         ex_.assume(z3.And(ipos0 >= 0, ipos0 <= z3.Length(ac.get(ex_, cp, 'inq'))))
         env['ipos0'] = VInt(ipos0)
         env['inq'] = VSeq(ac.get(ex_, cp, 'inq'))
+        env['early'] = NONE
     L3 = Contract(
         PW + '._get_result', lid='L3', name='C16.L3 while the child is alive _get_result() returns None and changes neither result nor user_state',
         params={'self': ('const', None)}, self_class=PW, setup=alive_setup,
@@ -126,6 +135,12 @@ def build(ex):
         PW + '._get_result', lid='L4b', name='C16.L4b ProcessWorker._get_result drains the pipe after death and takes result and state from the last message',
         params={'self': ('const', None)}, self_class=PW, setup=dead_unfetched,
         ensures=[got_last], raises={}, raises_only=[], loops={0: drain}, options=opts)
+    L4c = None
+    if '_early_msg' in workers.init_attrs(ex.repo, PW):
+        L4c = Contract(
+            PW + '._get_result', lid='L4c', name='C16.L4c ProcessWorker._get_result uses the final message wait() received ahead of the child\'s exit unless a later one is in the pipe',
+            params={'self': ('const', None)}, self_class=PW, setup=lambda ex_, env: dead_unfetched(ex_, env, True),
+            ensures=[got_last], raises={}, raises_only=[], loops={0: drain}, options=opts)
 
     # ---------------------------------------------------------------- L5 restart arguments
     def ra_setup(ex_, env):
@@ -156,7 +171,7 @@ def build(ex):
         return z3.And(*conds)
     L2 = childrun.process_run_contract(ex, 'L2')
     L2i = childrun.process_run_injected(ex, 'L2i', 'C16')
-    return [(L1, None), (L2, None), (L2i, None), (L4, None), (L3, None), (L4b, None), (L5, None)]
+    return [(L1, None), (L2, None), (L2i, None), (L4, None), (L3, None), (L4b, None), (L5, None)] + ([(L4c, None)] if L4c is not None else [])
 
 
 def replay(ob, repo):
